@@ -19,9 +19,19 @@ Run-time contracts evaluated on the real bionumpy functions, oracle = Python `st
                                        batches, every ordered pair, every permutation and every sub-batch of small
                                        base batches
   rejection                          a byte that is not part of a decimal number is not parsed as a digit
+  selections (operation histories)   the formatters / parsers applied to a NON-contiguous selection of another array
+                                       (rows of a RaggedArray / EncodedRaggedArray / table permuted, reversed, strided,
+                                       masked, tail- or inner-sliced, repeated, column-sliced, two selections chained;
+                                       strided / 2-D-column / broadcast views of integer arrays; tables built fresh, built
+                                       from selected columns, or read from a file with columns touched / re-assigned
+                                       before or after the selection, then written): the result is element-wise the
+                                       canonical text of the selected rows, the input and the array it was selected from
+                                       keep their values, and a second call gives the same result
 
 Scope: 0, +-(10^d + k) for d = 0..18, k = -2..2, the int64 extremes, powers of two; widths 1..19 mixed in one
-batch; seeded random values above the bounds.
+batch; +-(10^d - k) for d = 15..18 and k up to 130 (the values that round up to 10^d as doubles) and 2^b +- k for
+b = 54..63 through every integer formatter (strops, list join, BED/BED6/BED12 files, matrices); seeded random values
+above the bounds.
 """
 import itertools
 import math
@@ -615,9 +625,386 @@ def ev_reject(col, case, tmp):
     col.fail("str_to_%s:non-digit-accepted-silently:%s" % (fn, cls), case, "text %r parsed as %r without an error" % (text, r))
 
 
+# ----------------------------------------------------------------------------------------------- selections (views)
+# A selection is a list of steps applied one after the other:
+#   ["idx", [i, ...]]      fancy index with an integer array (rows re-ordered, dropped, repeated)
+#   ["slice", a, b, s]     obj[a:b:s]  (None allowed)
+#   ["mask", [0/1, ...]]   boolean mask
+#   ["cols", a, b]         obj[:, a:b] (ragged arrays only: the same column slice of every row)
+# The oracle applies the same steps to plain Python lists.
+
+def sel_py(lst, steps):
+    for st in steps:
+        if st[0] == "idx":
+            lst = [lst[i] for i in st[1]]
+        elif st[0] == "slice":
+            lst = lst[slice(st[1], st[2], st[3])]
+        elif st[0] == "mask":
+            lst = [x for x, m in zip(lst, st[1]) if m]
+        elif st[0] == "cols":
+            lst = [r[slice(st[1], st[2])] for r in lst]
+        else:
+            raise ValueError(st)
+    return lst
+
+
+def sel_lib(obj, steps):
+    import numpy as np
+    for st in steps:
+        if st[0] == "idx":
+            obj = obj[np.array(st[1], dtype=int)]
+        elif st[0] == "slice":
+            obj = obj[slice(st[1], st[2], st[3])]
+        elif st[0] == "mask":
+            obj = obj[np.array(st[1], dtype=bool)]
+        elif st[0] == "cols":
+            obj = obj[:, slice(st[1], st[2])]
+        else:
+            raise ValueError(st)
+    return obj
+
+
+def _ragged(rows):
+    import numpy as np
+    from npstructures import RaggedArray
+    return RaggedArray(np.array([v for r in rows for v in r], dtype=np.int64), [len(r) for r in rows])
+
+
+def ev_joinlists_sel(col, case, tmp):
+    """int_lists_to_strings on a selection of the rows of another RaggedArray"""
+    from bionumpy.io.strops import int_lists_to_strings
+    rows, steps, sep, keep_last = case["rows"], case["sel"], case["sep"], case["keep_last"]
+    col.case(case, contract="int_lists_to_strings:selection")
+    tag = "int_lists_to_strings:non-contiguous-selection" + (":sep-empty" if sep == "" else "")
+    sel_rows = sel_py(rows, steps)
+    if sep == "":
+        exp = ["".join(str(v) for v in r) for r in sel_rows]
+    else:
+        exp = ["".join(str(v) + sep for v in r) if keep_last else sep.join(str(v) for v in r) for r in sel_rows]
+    base = _ragged(rows)
+    view = col.guarded(lambda: sel_lib(base, steps), tag + ":select", case)
+    if view is None:
+        return
+    kw = {"sep": ""} if sep == "" else {"sep": sep, "keep_last": keep_last}
+    got = col.guarded(lambda: _rows(int_lists_to_strings(view, **kw)), tag, case)
+    if got is None:
+        return
+    if got != exp:
+        sub = "wrong-join"
+        if len(got) != len(exp):
+            sub = "row-count"
+        elif sep:
+            # every row splits into the right number of elements but one element is not the canonical text:
+            # a defect of the integer formatter, not of the grouping into rows
+            per_row = []
+            for r, g in zip(sel_rows, got):
+                parts = g.split(sep)
+                if keep_last and parts and parts[-1] == "":
+                    parts = parts[:-1]
+                if r == [] and parts == [""]:
+                    parts = []
+                per_row.append(parts)
+            if all(len(p) == len(r) for p, r in zip(per_row, sel_rows)):
+                bad = [(v, t) for p, r in zip(per_row, sel_rows) for t, v in zip(p, r) if t != str(v)]
+                if bad:
+                    sub = "element:" + fmt_class(bad[0][0], bad[0][1])
+        col.fail(tag + ":" + sub, case, "got %r expected %r" % (got[:6], exp[:6]))
+    # the selection and the array it was taken from keep their values; formatting again gives the same text
+    after = col.guarded(lambda: (view.tolist(), base.tolist()), tag + ":input-after-call", case)
+    if after is not None:
+        col.check([list(map(int, r)) for r in after[0]] == sel_rows, tag + ":input-modified", case, "selection now %r expected %r" % (after[0][:6], sel_rows[:6]))
+        col.check([list(map(int, r)) for r in after[1]] == rows, tag + ":selected-from-array-modified", case, "base now %r" % (after[1][:6],))
+    got2 = col.guarded(lambda: _rows(int_lists_to_strings(view, **kw)), tag + ":second-call", case)
+    if got2 is not None and got2 != got:
+        col.fail(tag + ":second-call-differs", case, "first %r second %r" % (got[:6], got2[:6]))
+
+
+def _int_view(vals, view):
+    """(numpy view, expected python list, base array, python copy of the base) for a view description"""
+    import numpy as np
+    kind = view[0]
+    if kind == "sel":                      # 1-D selection steps (slices give strided views)
+        base = np.array(vals, dtype=np.int64)
+        return sel_lib(base, view[1]), sel_py(list(vals), view[1]), base, list(vals)
+    if kind == "matrix-col":               # column j of a C-ordered matrix with ncols columns
+        ncols, j = view[1], view[2]
+        m = [[(v if c == j else (c + 1) * 7 - i) for c in range(ncols)] for i, v in enumerate(vals)]
+        base = np.array(m, dtype=np.int64).reshape(len(vals), ncols)
+        return base[:, j], list(vals), base, m
+    if kind == "matrix-row-F":             # row of a Fortran-ordered matrix
+        nrows, i = view[1], view[2]
+        m = [[(v if r == i else r * 11 + c) for c, v in enumerate(vals)] for r in range(nrows)]
+        base = np.asfortranarray(np.array(m, dtype=np.int64).reshape(nrows, len(vals)))
+        return base[i], list(vals), base, m
+    if kind == "broadcast":                # stride-0 view: the same number n times
+        n = view[1]
+        base = np.array(vals[:1], dtype=np.int64)
+        return np.broadcast_to(base[0], (n,)), [vals[0]] * n, base, [vals[0]]
+    if kind == "ragged-col":               # column j of a RaggedArray whose rows have different lengths
+        j = view[1]
+        rows = [[(v if c == j else c - i) for c in range(j + 1 + i % 3)] for i, v in enumerate(vals)]
+        base = _ragged(rows)
+        return base[:, j], list(vals), base, rows
+    if kind == "ragged-row":               # one row of a selection of a RaggedArray
+        rows, steps, i = view[1], view[2], view[3]
+        base = _ragged(rows)
+        return sel_lib(base, steps)[i], sel_py(rows, steps)[i], base, rows
+    raise ValueError(view)
+
+
+def ev_fmt_view(col, case, tmp):
+    """ints_to_strings on a non-contiguous / strided / derived view of an integer array"""
+    import numpy as np
+    from bionumpy.io.strops import ints_to_strings
+    col.case(case, contract="ints_to_strings:view")
+    tag = "ints_to_strings:non-contiguous-view"
+    r = col.guarded(lambda: _int_view(case["vals"], case["view"]), tag + ":select", case)
+    if r is None:
+        return
+    arr, exp_vals, base, base_py = r
+    got = col.guarded(lambda: _rows(ints_to_strings(arr)), tag, case)
+    if got is None:
+        return
+    check_int_rows(col, case, tag, [int(v) for v in exp_vals], got)
+    col.check(np.asarray(arr).tolist() == exp_vals, tag + ":input-modified", case, "view now %r" % (np.asarray(arr).tolist()[:8],))
+    col.check(base.tolist() == base_py, tag + ":selected-from-array-modified", case, "base now %r" % (base.tolist()[:8],))
+    got2 = col.guarded(lambda: _rows(ints_to_strings(arr)), tag + ":second-call", case)
+    if got2 is not None and got2 != got:
+        col.fail(tag + ":second-call-differs", case, "first %r second %r" % (got[:6], got2[:6]))
+
+
+def ev_parse_sel(col, case, tmp):
+    """str_to_int on a selection of the rows of another EncodedRaggedArray"""
+    import numpy as np
+    from bionumpy.encoded_array import as_encoded_array
+    from bionumpy.io.strops import str_to_int
+    texts, steps = case["texts"], case["sel"]
+    col.case(case, contract="str_to_int:selection")
+    tag = "str_to_int:non-contiguous-selection"
+    sel_texts = sel_py(list(texts), steps)
+    base = as_encoded_array(list(texts))
+    view = col.guarded(lambda: sel_lib(base, steps), tag + ":select", case)
+    if view is None:
+        return
+    got = col.guarded(lambda: np.atleast_1d(str_to_int(view)).tolist(), tag, case)
+    if got is None:
+        return
+    exp = [int(t) for t in sel_texts]
+    if col.check(len(got) == len(exp), tag + ":row-count", case, "got %r" % (got[:8],)):
+        for t, g, e in zip(sel_texts, got, exp):
+            if g != e:
+                col.fail(tag + ":wrong-value:" + text_variant(t), case, "text %r parsed as %r, expected %r" % (t, g, e))
+    after = col.guarded(lambda: (_rows(view), _rows(base)), tag + ":input-after-call", case)
+    if after is not None:
+        col.check(after[0] == sel_texts, tag + ":input-modified", case, "selection now %r" % (after[0][:6],))
+        col.check(after[1] == list(texts), tag + ":selected-from-array-modified", case, "base now %r" % (after[1][:6],))
+
+
+def _matrix_view(m, view):
+    import numpy as np
+    a = np.array(m, dtype=np.int64).reshape(len(m), len(m[0]))
+    if view == "T":
+        return a.T, [list(r) for r in zip(*m)]
+    if view == "F":
+        return np.asfortranarray(a), [list(r) for r in m]
+    if view == "rows-reversed":
+        return a[::-1], [list(r) for r in m[::-1]]
+    if view == "cols-reversed":
+        return a[:, ::-1], [list(r[::-1]) for r in m]
+    if view == "every-2nd-row":
+        return a[::2], [list(r) for r in m[::2]]
+    if view == "every-2nd-col":
+        return a[:, ::2], [list(r[::2]) for r in m]
+    if view == "inner":
+        return a[1:, 1:], [list(r[1:]) for r in m[1:]]
+    if view == "rows-permuted":
+        idx = list(range(len(m)))[1:] + [0]
+        return a[np.array(idx)], [list(m[i]) for i in idx]
+    raise ValueError(view)
+
+
+def ev_matrix_csv_view(col, case, tmp):
+    from bionumpy.io.matrix_dump import matrix_to_csv
+    m, view, sep = case["m"], case["view"], case["sep"]
+    col.case(case, contract="matrix_to_csv:view")
+    tag = "matrix_to_csv:non-contiguous-view"
+    r = col.guarded(lambda: _matrix_view(m, view), tag + ":select", case)
+    if r is None:
+        return
+    arr, em = r
+    if not em or not em[0]:
+        return
+    header = ["col%d" % (10 ** j) for j in range(len(em[0]))] if case.get("header") else None
+    got = col.guarded(lambda: matrix_to_csv(arr, header=header, sep=sep).to_string(), tag, case)
+    if got is None:
+        return
+    exp = (sep.join(header) + "\n" if header is not None else "") + "".join(sep.join(str(v) for v in r_) + "\n" for r_ in em)
+    if got != exp:
+        sub = "structure"
+        gl, el = got.split("\n"), exp.split("\n")
+        if len(gl) == len(el) and all(len(g.split(sep)) == len(e.split(sep)) for g, e in zip(gl, el)):
+            sub = "wrong-elements"
+            bad = [(b, a) for g, e in zip(gl[(1 if header else 0):], el[(1 if header else 0):]) for a, b in zip(g.split(sep), e.split(sep)) if a != b]
+            if bad and bad[0][1].lstrip("-").isdigit() and bad[0][1].lstrip("-").lstrip("0") == bad[0][0].lstrip("-").lstrip("0"):
+                sub = "element:" + fmt_class(int(bad[0][0]), bad[0][1])
+        col.fail(tag + ":" + sub, case, "got %r expected %r" % (got[:200], exp[:200]))
+    col.check(arr.tolist() == em, tag + ":input-modified", case, "matrix now %r" % (arr.tolist()[:4],))
+
+
+# tables: python rows  [i, start, stop]                                                    bed   (Interval)
+#                      [i, start, stop, score]                                             bed6
+#                      [i, start, stop, value (double)]                                    bdg   (BedGraph)
+#                      [i, start, stop, score, thick_start, thick_end, sizes, starts]      bed12
+# i identifies the string columns (chromosome c<i>, name n<i>, strand "+-"[i % 2]).
+_TBL_INT = {"bed": {"start": 1, "stop": 2}, "bed6": {"start": 1, "stop": 2, "score": 3}, "bdg": {"start": 1, "stop": 2},
+            "bed12": {"start": 1, "stop": 2, "score": 3, "thick_start": 4, "thick_end": 5}}
+_TBL_LIST = {"bed12": {"block_sizes": 6, "block_starts": 7}}
+_TBL_FLOAT = {"bdg": {"value": 3}}
+_TBL_NTOK = {"bed": 3, "bed6": 6, "bdg": 4, "bed12": 12}
+
+
+def _tbl_line(fmt, r):
+    i = r[0]
+    if fmt == "bed":
+        return "c%d\t%d\t%d" % (i, r[1], r[2])
+    if fmt == "bed6":
+        return "c%d\t%d\t%d\tn%d\t%d\t%s" % (i, r[1], r[2], i, r[3], "+-"[i % 2])
+    if fmt == "bdg":
+        return "c%d\t%d\t%d\t%s" % (i, r[1], r[2], repr(float(r[3])))
+    return "c%d\t%d\t%d\tn%d\t%d\t%s\t%d\t%d\t0,0,0\t%d\t%s\t%s" % (
+        i, r[1], r[2], i, r[3], "+-"[i % 2], r[4], r[5], len(r[6]), ",".join(str(v) for v in r[6]), ",".join(str(v) for v in r[7]))
+
+
+def _tbl_buffer_type(fmt):
+    from bionumpy.io.delimited_buffers import Bed6Buffer, Bed12Buffer
+    return {"bed6": Bed6Buffer, "bed12": Bed12Buffer}.get(fmt)
+
+
+def _tbl_columns(fmt, rows):
+    """name -> numpy / ragged / list column of python rows (all columns of the format, in constructor order)"""
+    import numpy as np
+    ints = lambda k: np.array([r[k] for r in rows], dtype=np.int64)
+    idx = [r[0] for r in rows]
+    cols = [("chromosome", ["c%d" % i for i in idx]), ("start", ints(1)), ("stop", ints(2))]
+    if fmt == "bdg":
+        cols.append(("value", np.array([float(r[3]) for r in rows], dtype=float)))
+    if fmt in ("bed6", "bed12"):
+        cols += [("name", ["n%d" % i for i in idx]), ("score", ints(3)), ("strand", ["+-"[i % 2] for i in idx])]
+    if fmt == "bed12":
+        cols += [("thick_start", ints(4)), ("thick_end", ints(5)), ("item_rgb", ["0,0,0"] * len(rows)),
+                 ("block_count", np.array([len(r[6]) for r in rows], dtype=np.int64)),
+                 ("block_sizes", _ragged([r[6] for r in rows])), ("block_starts", _ragged([r[7] for r in rows]))]
+    return cols
+
+
+def _tbl_class(fmt):
+    from bionumpy import datatypes as dt
+    return {"bed": dt.Interval, "bed6": dt.Bed6, "bdg": dt.BedGraph, "bed12": dt.Bed12}[fmt]
+
+
+def _tbl_numeric_names(fmt):
+    return list(_TBL_INT[fmt]) + list(_TBL_LIST.get(fmt, {})) + list(_TBL_FLOAT.get(fmt, {})) + (["block_count"] if fmt == "bed12" else [])
+
+
+def ev_table_sel(col, case, tmp):
+    """a table whose rows are a selection of another table, written to a file"""
+    import bionumpy as bnp
+    fmt, rows, steps, hist = case["fmt"], case["rows"], case["sel"], case["hist"]
+    col.case(case, contract="write:selected-rows:%s:%s" % (fmt, hist))
+    tag = "%s_write:selected-rows:%s" % (fmt, hist)
+    sel_rows = sel_py(rows, steps)
+    bt = _tbl_buffer_type(fmt)
+    kw = {"buffer_type": bt} if bt is not None else {}
+    ext = {"bed": ".bed", "bed6": ".bed", "bed12": ".bed", "bdg": ".bdg"}[fmt]
+    p_in = _bed_path(tmp, col, ".in" + ext)
+    p_out = _bed_path(tmp, col, ".out" + ext)
+
+    def read_all():
+        with open(p_in, "w") as f:
+            f.write("".join(_tbl_line(fmt, r) + "\n" for r in rows))
+        fh = bnp.open(p_in, **kw)
+        try:
+            return fh.read()
+        finally:
+            fh.close()
+
+    def produce():
+        cls = _tbl_class(fmt)
+        if hist == "fresh":                     # table built from arrays, then rows selected
+            d = sel_lib(cls(*[c for _, c in _tbl_columns(fmt, rows)]), steps)
+        elif hist == "fresh-from-selected-columns":   # every numeric column is itself a selection of a longer column
+            full = dict(_tbl_columns(fmt, rows))
+            part = _tbl_columns(fmt, sel_rows)
+            num = set(_tbl_numeric_names(fmt))
+            d = cls(*[(sel_lib(full[n], steps) if n in num else c) for n, c in part])
+        elif hist == "read":                    # parsed table, rows selected (text of the fields is moved)
+            d = sel_lib(read_all(), steps)
+        elif hist == "read-touch":              # numeric columns parsed before the selection
+            d = read_all()
+            for n in _tbl_numeric_names(fmt):
+                getattr(d, n)
+            d = sel_lib(d, steps)
+        elif hist == "read-set":                # numeric columns re-assigned before the selection
+            d = read_all()
+            full = dict(_tbl_columns(fmt, rows))
+            for n in _tbl_numeric_names(fmt):
+                setattr(d, n, full[n])
+            d = sel_lib(d, steps)
+        elif hist == "read-sel-set":            # rows selected, then numeric columns re-assigned with selected columns
+            d = sel_lib(read_all(), steps)
+            full = dict(_tbl_columns(fmt, rows))
+            for n in _tbl_numeric_names(fmt):
+                setattr(d, n, sel_lib(full[n], steps))
+        else:
+            raise ValueError(hist)
+        with bnp.open(p_out, "w", **kw) as f:
+            f.write(d)
+        return open(p_out).read()
+    out = col.guarded(produce, tag, case)
+    for p in (p_in, p_out):
+        if os.path.exists(p):
+            os.remove(p)
+    if out is None:
+        return
+    lines = out.split("\n")
+    if not col.check(out.endswith("\n") and len(lines) == len(sel_rows) + 1, tag + ":line-count", case, repr(out[:200])):
+        return
+    ntok = _TBL_NTOK[fmt]
+    for r, line in zip(sel_rows, lines):
+        toks = line.split("\t")
+        if len(toks) != ntok:
+            col.fail(tag + ":line-structure", case, "line %r" % line)
+            continue
+        etoks = _tbl_line(fmt, r).split("\t")
+        int_pos = {"bed": (1, 2), "bed6": (1, 2, 4), "bdg": (1, 2), "bed12": (1, 2, 4, 6, 7, 9)}[fmt]
+        list_pos = (10, 11) if fmt == "bed12" else ()
+        float_pos = (3,) if fmt == "bdg" else ()
+        for k, (g, e) in enumerate(zip(toks, etoks)):
+            if k in int_pos:
+                if g != e:
+                    col.fail(tag + ":int-column:" + fmt_class(int(e), g), case, "token %d: value %s written as %r (row %r)" % (k, e, g, r))
+            elif k in list_pos:
+                parts = g.split(",")
+                if parts and parts[-1] == "":        # a trailing comma is permitted by the BED12 format
+                    parts = parts[:-1]
+                if parts != e.split(","):
+                    col.fail(tag + ":int-list:wrong-join", case, "token %d: list %s written as %r" % (k, e, g))
+            elif k in float_pos:
+                try:
+                    ok = float(g) == float(r[3])
+                except ValueError:
+                    ok = False
+                if not ok:
+                    col.fail(tag + ":float-column:text-does-not-denote-the-double", case, "%r written as %r" % (r[3], g))
+            elif g != e:
+                col.fail(tag + ":string-column", case, "token %d: %r expected %r" % (k, g, e))
+
+
 EVAL = {"fmt": ev_fmt, "int_to_str": ev_int_to_str, "parse": ev_parse, "joinlists": ev_joinlists, "bed_read": ev_bed_read,
         "bed_write": ev_bed_write, "bed6": ev_bed6, "bed12": ev_bed12, "matrix_csv": ev_matrix_csv, "matrix_parse": ev_matrix_parse,
-        "fparse": ev_fparse, "froundtrip": ev_froundtrip, "bdg": ev_bdg, "reject": ev_reject}
+        "fparse": ev_fparse, "froundtrip": ev_froundtrip, "bdg": ev_bdg, "reject": ev_reject,
+        "joinlists_sel": ev_joinlists_sel, "fmt_view": ev_fmt_view, "parse_sel": ev_parse_sel, "matrix_csv_view": ev_matrix_csv_view,
+        "table_sel": ev_table_sel}
 
 
 # ----------------------------------------------------------------------------------------------- scopes
@@ -672,6 +1059,165 @@ def int_text_variants(v, thorough):
     if v == 0:
         out += ["-0", "-00"]
     return out
+
+
+def near_power_ints(thorough):
+    """+-(10^d - k), d = 15..18: the integers that are within a few double ulps below a power of ten (10^16-1, 10^17-8..,
+    10^18-64.. round UP to the power of ten as doubles), their mirror images above it, and 2^b +- k for b = 54..63"""
+    ks = range(1, 131) if thorough else (1, 2, 3, 4, 5, 7, 8, 9, 15, 16, 17, 31, 32, 33, 63, 64, 65, 66, 127, 128, 129)
+    vals = set()
+    for d in range(15, 19):
+        for k in ks:
+            for v in (10 ** d - k, 10 ** d + k):
+                vals.add(v)
+                vals.add(-v)
+    for b in range(54, 64):
+        for k in ((-3, -2, -1, 0, 1, 2, 3) if thorough else (-1, 0, 1)):
+            v = 2 ** b + k
+            if v <= I64MAX:
+                vals.add(v)
+                if -v > I64MIN:
+                    vals.add(-v)
+    return sorted(vals)
+
+
+def _dedupe(steps_list, n):
+    """drop selections that pick no row, and repeated (kind, picked rows) pairs"""
+    seen, out = set(), []
+    for steps in steps_list:
+        picked = sel_py(list(range(n)), [st for st in steps if st[0] != "cols"])
+        if not picked:
+            continue
+        key = (tuple(st[0] for st in steps), tuple(picked), tuple(tuple(st[1:]) for st in steps if st[0] == "cols"))
+        if key not in seen:
+            seen.add(key)
+            out.append(steps)
+    return out
+
+
+def row_selections(n, rng, level):
+    """selections of the rows of an n-row array.  level 2: every ordered selection without repetition (n <= 4) or every
+    permutation (n <= 6), every mask, every slice with step +-1, +-2, +-3, repeats, two selections chained;
+    level 1: every mask and slice, the structured permutations + seeded ones; level 0: a fixed dozen"""
+    out = []
+    ident = list(range(n))
+    perms = [ident[::-1], ident[1:] + ident[:1], ident[-1:] + ident[:-1], ident[::2] + ident[1::2], ident[1::2] + ident[::2]]
+    if n >= 3:
+        perms.append([1, 0] + ident[2:])
+        perms.append(ident[:-2] + [n - 1, n - 2])
+    slices = [(a, b, st) for st in (1, -1, 2, -2, 3, -3) for a in [None] + list(range(n)) for b in [None] + list(range(n + 1))]
+    masks = [[(m >> i) & 1 for i in range(n)] for m in range(1, 2 ** n)]
+    if level == 0:
+        out += [[["idx", q]] for q in perms[:4]]
+        out += [[["slice", None, None, -1]], [["slice", 1, None, 1]], [["slice", n // 2, None, 1]], [["slice", None, None, 2]], [["slice", 1, n - 1, 1]]]
+        out += [[["mask", [i % 2 for i in range(n)]]], [["mask", [int(i not in (0, n - 2)) for i in range(n)]]], [["mask", [int(i == n - 1) for i in range(n)]]]]
+        out += [[["idx", ident[::-1]], ["slice", 1, None, 1]], [["mask", [int(i != 0) for i in range(n)]], ["slice", None, None, -1]]]
+        return _dedupe(out, n)
+    if level >= 2 and n <= 4:
+        out += [[["idx", q]] for q in sub_batches(ident)]
+    elif level >= 2 and n <= 6:
+        out += [[["idx", list(q)]] for q in itertools.permutations(ident)]
+        out += [[["idx", list(q)]] for r in (1, 2, 3) for q in itertools.permutations(ident, r)]
+    else:
+        out += [[["idx", q]] for q in perms]
+        for _ in range(12 if level == 1 else 40):
+            q = list(ident)
+            rng.shuffle(q)
+            out.append([["idx", q[: rng.randint(max(1, n - 2), n)]]])
+        out += [[["idx", [i]]] for i in ident]
+    out += [[["idx", [i, j]]] for i in ident for j in ident if i == j or level >= 2]           # repeated rows
+    out += [[["idx", [i, j, i]]] for i in ident[:3] for j in ident[-2:]]
+    out += [[["slice", a, b, st]] for a, b, st in slices if level >= 2 or abs(st) <= 2]
+    if n <= 6 or level >= 2:
+        out += [[["mask", m]] for m in (masks if n <= 8 else masks[:: max(1, len(masks) // 256)])]
+    else:
+        out += [[["mask", m]] for m in masks[:: max(1, len(masks) // 40)]]
+    # two selections chained
+    firsts = [["idx", ident[::-1]], ["idx", ident[1:] + ident[:1]], ["slice", 1, None, 1], ["slice", None, None, -1], ["slice", None, None, 2],
+              ["mask", [int(i != 1 % n) for i in range(n)]]]
+    for f in firsts:
+        m = len(sel_py(ident, [f]))
+        if m == 0:
+            continue
+        seconds = [["slice", 1, None, 1], ["slice", None, None, -1], ["slice", None, m - 1, 1], ["idx", list(range(m))[::-1]],
+                   ["idx", list(range(m))[1:] + [0]], ["mask", [i % 2 for i in range(m)]], ["mask", [int(i != 0) for i in range(m)]]]
+        for g in seconds:
+            out.append([f, g])
+    return _dedupe(out, n)
+
+
+def ragged_selections(rows, rng, level):
+    """row selections plus column slices (the same slice of every row), alone and chained with a row selection"""
+    n = len(rows)
+    out = list(row_selections(n, rng, level))
+    width = max(len(r) for r in rows)
+    cols = [["cols", a, b] for a in [None] + list(range(1, width)) for b in [None, -1] + list(range(1, width))]
+    keep = []
+    for c in cols:
+        if c[1] is None and c[2] is None:
+            continue
+        if sum(len(r) for r in sel_py(rows, [c])) == 0:
+            continue
+        keep.append(c)
+    out += [[c] for c in keep]
+    for c in keep[:: (1 if level >= 2 else 3)]:
+        for rs in ([["idx", list(range(n))[::-1]]], [["slice", 1, None, 1]], [["mask", [int(i != 0) for i in range(n)]]]):
+            if sum(len(r) for r in sel_py(rows, rs + [c])) > 0:
+                out.append(rs + [c])
+                out.append([c] + rs)
+    # a selection must contain at least one number (an empty batch has nothing to convert)
+    return [s for s in out if sum(len(r) for r in sel_py(rows, s)) > 0]
+
+
+def list_bases(thorough):
+    """RaggedArrays of integers with different text widths and row lengths"""
+    bases = [
+        [[1, 22, 333], [4444, 5], [66, 7, 88888, 9], [10], [1234567, -2], [0, 100, -1000]],
+        [[7], [-42, 10 ** 9], [10 ** 18, 0, -5], [99, 100]],
+        [[1, 20], [], [300, -4, 5], [60000]],
+        [[10 ** 16 - 1, 5], [-(10 ** 17) + 3, 10 ** 18 - 1, 0], [7], [I64MAX, -(10 ** 15)]],
+        [[11, 22], [33], [44, 55, 66]],                                  # equal widths: only the grouping can go wrong
+        [[5], [-60], [700]],
+    ]
+    if thorough:
+        bases += [
+            [[-1], [10, -100, 1000, -10000], [I64MIN + 1, I64MAX], [0, 0], [12345678901]],
+            [[10 ** w for w in range(i, 19, 5)] for i in range(5)],
+            [[3, 1, 4, 1, 5, 9, 2, 6], [53], [58, 979], [3238462643383279, 50288], [-4, -19, -716939937510]],
+            [[9], [98], [987], [9876], [98765], [987654], [9876543], [98765432]],
+        ]
+    return bases
+
+
+def table_rows(fmt, n, variant):
+    """n python rows of a table with numbers of different widths (variant 1: values just below powers of ten >= 10^15)"""
+    rows = []
+    for i in range(n):
+        if variant == 0:
+            start = (i * 37) % 11 * 10 ** ((i * 5) % 7)
+            stop = start + 10 ** (i % 4) + i
+            score = (-1) ** i * (10 ** (i % 6) - 1 + i)
+        else:
+            start = 10 ** (15 + i % 4) - (1 + 7 * (i % 3))
+            stop = 10 ** (18 - i % 4) - 2 ** (i % 7)
+            score = (-1) ** i * (10 ** (16 + i % 3) - 1 - (i % 2) * 63)
+        r = [i, start, stop]
+        if fmt == "bdg":
+            r.append([1.5, -2e-5, 7.0, 0.001, 1e300, 123456.789, -0.0625, 3.0, 1e-7, 2.5e10][(i + variant * 3) % 10])
+        if fmt in ("bed6", "bed12"):
+            r.append(score)
+        if fmt == "bed12":
+            k = 1 + (i * 3 + variant) % 4
+            sizes = [(10 ** ((i + j * (2 + variant)) % 7) + j) * (1 + (i + j) % 3) for j in range(k)]
+            if variant:
+                sizes[-1] = 10 ** (16 + i % 3) - 1 - i
+            starts = [sum(sizes[:j]) + j * 10 ** (i % 3) for j in range(k)]
+            r += [start + 1, stop - 1 if stop > start + 1 else stop, sizes, starts]
+        rows.append(r)
+    return rows
+
+
+HISTS = ("fresh", "fresh-from-selected-columns", "read", "read-touch", "read-set", "read-sel-set")
 
 
 def sub_batches(base):
@@ -1035,6 +1581,141 @@ def run(tier="quick", seed=0):
                 go({"k": "froundtrip", "group": g, "hex": [d.hex()]})
             for i in range(0, len(ds), 200):
                 go({"k": "froundtrip", "group": g, "hex": [d.hex() for d in ds[i:i + 200]]})
+
+        # ---- integers just below / above a power of ten >= 10^15 (round to the power as doubles), 2^b +- k: every formatter
+        NP = near_power_ints(thorough)
+        for v in NP:
+            go({"k": "fmt", "vals": [v]})
+            if v >= 0:
+                go({"k": "int_to_str", "v": v})
+        small = [0, -7, 42, -(10 ** 5), 10 ** 9 + 1, -(10 ** 12)]
+        np_batches = [NP, NP[::-1], [v for v in NP if v >= 0], [x for i, v in enumerate(NP) for x in ([v, small[i % len(small)]] if i % 3 == 0 else [v])]]
+        for b in np_batches:
+            go({"k": "fmt", "vals": b})
+            go({"k": "parse", "texts": [str(v) for v in b], "path": "ragged"})
+            go({"k": "parse", "texts": [str(v) for v in b], "path": "with_missing"})
+            go({"k": "bed_write", "starts": b, "stops": b[::-1]})
+            go({"k": "bed6", "scores": [str(v) for v in b]})
+            nn = [abs(v) for v in b]
+            go({"k": "bed_read", "rows": [[str(v), str(w)] for v, w in zip(nn, b)]})
+        go({"k": "parse", "texts": [str(v).zfill(19) for v in NP if v >= 0], "path": "2d"})
+        step = 1 if thorough else 5
+        for v in NP[::step]:
+            go({"k": "bed_write", "starts": [v], "stops": [-v]})
+            go({"k": "parse", "texts": [str(v)], "path": "ragged"})
+            for u in small[:3]:
+                go({"k": "fmt", "vals": [u, v]})
+                go({"k": "fmt", "vals": [v, u]})
+        for width in (1, 2, 3):
+            for off in range(width):
+                chunk = [NP[i:i + width] for i in range(off, len(NP), width)]
+                go({"k": "joinlists", "rows": chunk, "sep": ",", "keep_last": bool(off % 2)})
+                pos = [[abs(v) for v in r] for r in chunk]
+                for i in range(0, len(pos), 40):
+                    go({"k": "bed12", "sizes": pos[i:i + 40], "starts": [r[::-1] for r in pos[i:i + 40]], "trailing": False})
+        for v in NP[::step]:
+            go({"k": "joinlists", "rows": [[v]], "sep": ",", "keep_last": False})
+            go({"k": "joinlists", "rows": [[7, v], [v, -30, v]], "sep": ";", "keep_last": False})
+        for ncol in (1, 3, 4):
+            m = [NP[i:i + ncol] for i in range(0, len(NP) - ncol + 1, ncol)]
+            for i in range(0, len(m), 30):
+                go({"k": "matrix_csv", "m": m[i:i + 30], "header": None, "sep": ","})
+                go({"k": "matrix_csv", "m": m[i:i + 30], "header": ["col%d" % (10 ** j) for j in range(ncol)], "sep": "\t"})
+
+        # ---- formatters / parsers applied to a non-contiguous selection of another array
+        lvl = 2 if thorough else 1
+        for bi, rows in enumerate(list_bases(thorough)):
+            sels = ragged_selections(rows, rng, lvl if (len(rows) <= 4 or thorough) else 1)
+            for steps in sels:
+                go({"k": "joinlists_sel", "rows": rows, "sel": steps, "sep": ",", "keep_last": False})
+            for steps in sels[:: (2 if thorough else 5)]:
+                go({"k": "joinlists_sel", "rows": rows, "sel": steps, "sep": ",", "keep_last": True})
+                go({"k": "joinlists_sel", "rows": rows, "sel": steps, "sep": ";", "keep_last": False})
+        digit_rows = [[0, 1, 1], [1], [9, 8, 7, 6], [5, 0], [2, 3, 4, 5, 6]]
+        for steps in ragged_selections(digit_rows, rng, 1):
+            go({"k": "joinlists_sel", "rows": digit_rows, "sel": steps, "sep": "", "keep_last": False})
+        # sort / filter a larger batch, as one does before writing a file
+        for nrows in ((8, 30, 200) if not thorough else (8, 9, 30, 31, 200, 201, 1000)):
+            for rep in range(2 if not thorough else 6):
+                rows = [[rand_int(rng) for _ in range(rng.randint(1, 5))] for _ in range(nrows)]
+                order = sorted(range(nrows), key=lambda i: (rows[i][0], i))                    # stable sort by the first element
+                bylen = sorted(range(nrows), key=lambda i: (len(rows[i]), i))
+                mask = [int(rng.random() < 0.6) for _ in range(nrows)]
+                mask[rng.randrange(nrows)] = 1
+                for steps in ([["idx", order]], [["idx", bylen]], [["mask", mask]], [["slice", None, None, -1]], [["slice", nrows // 3, None, 1]],
+                              [["idx", order], ["mask", mask]], [["mask", mask], ["slice", None, None, -1]], [["cols", 1, None], ["idx", order]]):
+                    if sum(len(r) for r in sel_py(rows, steps)) > 0:
+                        go({"k": "joinlists_sel", "rows": rows, "sel": steps, "sep": ",", "keep_last": bool(rep % 2)})
+
+        # ints_to_strings / str_to_int on strided and derived views
+        view_vals = [V, [v for v in NP if v != I64MIN][:: (1 if thorough else 3)], [7, -42, 10 ** 9, -(10 ** 18), 0, 10 ** 16 - 1, 123, -5],
+                     [(-1) ** w * (10 ** w - 1) for w in range(1, 19)]]
+        for vals in view_vals:
+            vals = [v for v in vals if v != I64MIN]        # the int64 minimum is a known defect with its own signature
+            n = len(vals)
+            views = [["sel", [["slice", None, None, -1]]], ["sel", [["slice", None, None, 2]]], ["sel", [["slice", 1, None, 2]]],
+                     ["sel", [["slice", None, None, 3]]], ["sel", [["slice", None, None, -2]]], ["sel", [["slice", 2, n - 2, 1]]],
+                     ["sel", [["slice", None, None, -1], ["slice", 1, None, 2]]], ["sel", [["mask", [i % 3 != 0 for i in range(n)]]]],
+                     ["sel", [["idx", list(range(n))[::-1]], ["slice", None, None, 2]]],
+                     ["matrix-col", 2, 0], ["matrix-col", 2, 1], ["matrix-col", 5, 3], ["matrix-row-F", 3, 1], ["ragged-col", 0], ["ragged-col", 2]]
+            for vw in views:
+                go({"k": "fmt_view", "vals": vals, "view": vw})
+            texts = [str(v) for v in vals]
+            for steps in row_selections(n, rng, 0):
+                go({"k": "parse_sel", "texts": texts, "sel": steps})
+        for v in (0, 5, -5, 10 ** 18, -(10 ** 18), 10 ** 17 - 1, I64MAX):
+            for n in (1, 2, 5):
+                go({"k": "fmt_view", "vals": [v], "view": ["broadcast", n]})
+        for rows in list_bases(thorough)[:4]:
+            for steps in row_selections(len(rows), rng, 0):
+                picked = sel_py(rows, steps)
+                for i, r in enumerate(picked):
+                    if r:
+                        go({"k": "fmt_view", "vals": [], "view": ["ragged-row", rows, steps, i]})
+        for base in int_base_batches(False):
+            texts = [str(v) for v in base]
+            texts[1] = ("+" + texts[1]) if base[1] >= 0 else texts[1][0] + "00" + texts[1][1:]
+            for steps in row_selections(len(base), rng, lvl):
+                go({"k": "parse_sel", "texts": texts, "sel": steps})
+            b5 = [v for v in base if v != I64MIN] + [10 ** 17 - 1]
+            for steps in row_selections(len(b5), rng, 1):
+                if any(st[0] == "slice" for st in steps):
+                    go({"k": "fmt_view", "vals": b5, "view": ["sel", steps]})
+
+        # matrices that are views
+        vmats = [[[1, -20, 300], [-4000, 5, 60], [7, 80000, -9], [10 ** 18, 0, -(10 ** 17) + 1]],
+                 [[10 ** (r + 3 * c) - r for c in range(4)] for r in range(5)],
+                 [[10 ** 16 - 1, 2], [3, 10 ** 17 - 8], [-(10 ** 18) + 64, 5]]]
+        for m in vmats:
+            for view in ("T", "F", "rows-reversed", "cols-reversed", "every-2nd-row", "every-2nd-col", "inner", "rows-permuted"):
+                for sep in (",", "\t"):
+                    go({"k": "matrix_csv_view", "m": m, "view": view, "sep": sep, "header": sep == "\t"})
+
+        # tables (files): rows selected from another table, with every history of the columns
+        for fmt in ("bed", "bed6", "bed12", "bdg"):
+            for variant, n in ((0, 6), (1, 5), (0, 4)):
+                rows = table_rows(fmt, n, variant)
+                for hist in HISTS:
+                    full = thorough and (fmt == "bed12" or hist in ("fresh", "read-set"))
+                    level = (2 if full else 1) if (variant == 0 and n == 4) or (thorough and fmt == "bed12") else 0
+                    if not thorough and fmt != "bed12" and hist in ("read", "read-touch") and n != 6:
+                        continue
+                    for steps in row_selections(n, rng, level):
+                        go({"k": "table_sel", "fmt": fmt, "rows": rows, "sel": steps, "hist": hist})
+        for nrows in ((40,) if not thorough else (40, 41, 300)):
+            for fmt in ("bed12", "bed6", "bed", "bdg"):
+                rows = table_rows(fmt, nrows, 0)
+                for r in rows:
+                    r[1] = abs(rand_int(rng)) // 4
+                    r[2] = r[1] + abs(rand_int(rng)) // 4
+                    if fmt == "bed12":
+                        r[4], r[5] = r[1], r[2]
+                order = sorted(range(nrows), key=lambda i: (rows[i][1], i))
+                mask = [int(rng.random() < 0.5) for _ in range(nrows)]
+                mask[0] = 1
+                for steps in ([["idx", order]], [["mask", mask]], [["slice", None, None, -1]], [["slice", 7, None, 1]], [["idx", order], ["mask", mask]]):
+                    for hist in HISTS:
+                        go({"k": "table_sel", "fmt": fmt, "rows": rows, "sel": steps, "hist": hist})
 
         # ---- sampling above the bounds (seeded)
         for _ in range(5000 if thorough else 300):
